@@ -1,6 +1,9 @@
 """Unit `pexec` (C19): PoseidonPermExecutor::resolve_private_data (circuit/src/ops/poseidon_perm/executor.rs) -- private (sibling) data
 attached to a permutation row is either consumed (Merkle mode) or reported as an error; it is never silently ignored."""
-from vf.unit import Unit
+import re
+
+from vf.extract import ExtractError
+from vf.unit import Unit, drop_capacity_hints
 
 PRELUDE = r'''
 #![allow(unused_imports, unused_variables, dead_code, unused_mut, unused_parens)]
@@ -29,13 +32,34 @@ impl<F> ExecutionContext<F> {
     /// the sibling data attached to this op, if any (private data present AND of the permutation's sibling type)
     pub open spec fn sibling(&self) -> Option<Seq<F>> { match self.private_data { Some(d) => (match d.perm { Some(p) => Some(p.sibling@), None => None }), None => None } }
 }
-pub struct PoseidonPermExecutor { pub op_type: NpoTypeId, pub merkle_path: bool }
+pub struct PoseidonPermExecutor { pub op_type: NpoTypeId, pub merkle_path: bool, pub new_start: bool, pub absorb_len: usize }
+#[derive(Clone, Copy, PartialEq, Eq, Structural)] pub struct WitnessId(pub u32);
+#[derive(Clone, Copy, PartialEq, Eq, Structural)] pub struct Fe(pub u64);
+pub uninterp spec fn fe_bool(b: bool) -> Fe;
+pub uninterp spec fn fe_u8(v: u8) -> Fe;
+impl Fe {
+    #[verifier::external_body] pub fn from_bool(b: bool) -> (r: Fe) ensures r == fe_bool(b) { unimplemented!() }
+    #[verifier::external_body] pub fn from_u8(v: u8) -> (r: Fe) ensures r == fe_u8(v) { unimplemented!() }
+}
+/// an input limb is read from the witness bus (CTL enabled): it names a witness
+pub open spec fn sp_ctl(inp: Seq<WitnessId>) -> bool { inp.len() > 0 }
+/// the committed header of a compact D=1 row:  [in_ctl_i]_{i<rate} ++ [absorb_len, cap_chain_enable] ++ [normal_chain_i]_{i<rate} ++ [merkle_chain_i]_{i<rate}
+///  * the capacity is handed over in-table on EVERY row that continues a chain (`!new_start`), whatever it absorbs;
+///  * a rate limb chains from the previous normal / Merkle output exactly when the row continues a chain of that kind and the limb is not witness-fed
+pub open spec fn compact_header(e: &PoseidonPermExecutor, inputs: Seq<Vec<WitnessId>>, rate: int) -> Seq<Fe> {
+    Seq::new((3 * rate + 2) as nat, |i: int|
+        if i < rate { fe_bool(sp_ctl(inputs[i]@)) }
+        else if i == rate { fe_u8(e.absorb_len as u8) }
+        else if i == rate + 1 { fe_bool(!e.new_start) }
+        else if i < 2 * rate + 2 { fe_bool(!e.new_start && !e.merkle_path && !sp_ctl(inputs[i - rate - 2]@)) }
+        else { fe_bool(!e.new_start && e.merkle_path && !sp_ctl(inputs[i - 2 * rate - 2]@)) })
+}
 } // verus!
 '''
 
 
 def build():
-    u = Unit('pexec', ['C19'])
+    u = Unit('pexec', ['C19', 'C06'])
     u.rlimit = 30
     u.assume('ExecutionContext / Box<dyn Any> private data modelled by an option of the one concrete type the executor downcasts to (R11); error strings opaque (R8)')
     u.text(PRELUDE)
@@ -47,7 +71,50 @@ def build():
     r.rewrite_re('R11', r'self\.op_type\.clone\(\)', 'self.op_type', min_count=0)
     r.ensures('sibling_data_on_a_row_that_cannot_consume_it_is_an_error', 'ctx.sibling() is Some && !self.merkle_path ==> ret is Err')
     r.ensures('ok_returns_exactly_the_attached_sibling', '(ret matches Ok(Some(s)) ==> self.merkle_path && ctx.sibling() == Some(s@)) && (ret matches Ok(None) ==> ctx.sibling() is None)')
+    # ---------------------------------------------------------------- preprocess_inputs[compact D=1 header]: the committed selector columns of a compact row (C06)
+    ph = u.extract(E, r'impl<V: PoseidonVariant> PoseidonPermExecutor<V>', 'preprocess_inputs', 'PoseidonPermExecutor::preprocess_inputs[compact_header]')
+    m1 = re.search(r'let cap_chain_enable\b', ph.body)
+    m2 = re.search(r'preprocessed\.register_non_primitive_preprocessed_no_read\(&self\.op_type, &hdr\);', ph.body)
+    if not m1 or not m2 or m2.start() < m1.start():
+        raise ExtractError('lost anchor in preprocess_inputs[compact_header]: the header construction')
+    ph.body = '{\n' + ph.body[m1.start():m2.start()] + '\nhdr\n}'
+    ph.rewrites.append(('R13', 'function body := the statements that build the header `hdr` of a compact D=1 row (from `let cap_chain_enable` to its registration); the slice returns `hdr`',
+                        'prefix: layout dispatch and the capacity-slot check; suffix: per-limb index columns and the non-compact layout'))
+    ph.set_sig('R11', 'fn preprocess_inputs_compact_header(&self, inputs: &Vec<Vec<WitnessId>>, rate_ext: usize) -> Vec<Fe>', sliced=True)
+    drop_capacity_hints(ph)
+    ph.rewrite_re('R7', r'let mut hdr = Vec::new\(\);', 'let mut hdr: Vec<Fe> = Vec::new();', min_count=0)
+    k_ = [0]
+
+    def take_loop(m):
+        k_[0] += 1
+        return f'let n_t{k_[0]}_ = if {m.group(3)} <= {m.group(2)}.len() {{ {m.group(3)} }} else {{ {m.group(2)}.len() }}; for t{k_[0]}_ in 0..n_t{k_[0]}_ {{ let {m.group(1)} = &{m.group(2)}[t{k_[0]}_];'
+    ph.rewrite_re('R5', r'for (\w+) in (\w+)\.iter\(\)\.take\((\w+)\) \{', take_loop, min_count=0)
+    ph.rewrite_re('R11', r'Self::limb_ctl_enabled\(', 'limb_ctl_enabled(', min_count=0)
+    ph.rewrite_re('R11', r'\bF::from_bool\(', 'Fe::from_bool(', min_count=0)
+    ph.rewrite_re('R11', r'\bF::from_u8\(', 'Fe::from_u8(', min_count=0)
+    ph.requires('row_shape', 'rate_ext <= inputs@.len() && rate_ext < 0x1000')
+    ph.ensures('header_columns_are_the_rows_flags', 'ret@ == compact_header(self, inputs@, rate_ext as int)')
+    heads = re.findall(r'for (t\d+_) in 0\.\.n_t\d+_', ph.body)
+    if len(heads) == 3 and 'hdr.push(Fe::from_u8(' in ph.body and 'let cap_chain_enable' in ph.body:
+        t1, t2, t3 = heads
+        R = 'rate_ext as int'
+        ph.loop(f'for {t1} in 0..n_{t1}', invariants=[('ctl_flags', f'rate_ext <= inputs@.len() && n_{t1} == rate_ext && hdr@ == compact_header(self, inputs@, {R}).take({t1} as int)')])
+        ph.loop(f'for {t2} in 0..n_{t2}', invariants=[('normal_chain_selectors', f'rate_ext <= inputs@.len() && n_{t2} == rate_ext && cap_chain_enable == !self.new_start && hdr@ == compact_header(self, inputs@, {R}).take({R} + 2 + {t2})')])
+        ph.loop(f'for {t3} in 0..n_{t3}', invariants=[('merkle_chain_selectors', f'rate_ext <= inputs@.len() && n_{t3} == rate_ext && hdr@ == compact_header(self, inputs@, {R}).take(2 * ({R}) + 2 + {t3})')])
+        ph.before(f'let n_{t1} =', f'proof {{ assert(hdr@ =~= compact_header(self, inputs@, {R}).take(0)); }}')
+        for t, off in ((t1, '0'), (t2, f'{R} + 2'), (t3, f'2 * ({R}) + 2')):
+            ph.at_loop_end(f'for {t} in 0..n_{t}', f'proof {{ let h = compact_header(self, inputs@, {R}); assert(h.take({off} + {t} + 1) =~= h.take({off} + {t}).push(h[{off} + {t}])); }}')
+        ph.rewrite_re('SPEC', r'(hdr\.push\(Fe::from_bool\(cap_chain_enable\)\);)', rf'\1 proof {{ let h = compact_header(self, inputs@, {R}); assert(h.take({R} + 1) =~= h.take({R}).push(h[{R}])); assert(h.take({R} + 2) =~= h.take({R} + 1).push(h[{R} + 1])); }}')
+        ph.bind_tail('r_', f'proof {{ let h = compact_header(self, inputs@, {R}); assert(h.take(3 * ({R}) + 2) =~= h); }}')
+    lc = u.extract(E, r'impl<V: PoseidonVariant> PoseidonPermExecutor<V>', 'limb_ctl_enabled', 'PoseidonPermExecutor::limb_ctl_enabled')
+    lc.set_sig('R11', 'fn limb_ctl_enabled(slot: &Vec<WitnessId>) -> bool')
+    lc.rewrite_re('R6', r'!slot\.is_empty\(\)', 'slot.len() > 0', min_count=0)
+    lc.ensures('ctl_enabled_iff_the_limb_names_a_witness', 'ret == sp_ctl(slot@)')
+    u.text('verus! {')
+    u.emit(lc)
+    u.text('}')
     u.text('verus! {\nimpl PoseidonPermExecutor {')
     u.emit(r)
+    u.emit(ph)
     u.text('}\n}')
     return u
